@@ -21,13 +21,14 @@ Components == {"err", "abort", "sp", "frameIndex", "ip", "curFrame",
                "stack.locals", "stack.above", "modulesCache", "globals", "pool.vms"}
 
 \* scripts of the harness library: number -> how the run ends
-Scripts == 1..14
+Scripts == 1..15
 Term(s) == CASE s = 1 -> "return" [] s = 2 -> "error-through-finally" [] s = 3 -> "recovered-panic" [] s = 4 -> "stack-overflow"
              [] s = 5 -> "frame-overflow" [] s = 6 -> "abort" [] s = 7 -> "tailstmt-throw" [] s = 8 -> "module-state"
              [] s = 9 -> "closures" [] s = 10 -> "error-in-finally" [] s = 11 -> "callback-error" [] s = 12 -> "deep-return"
+             [] s = 15 -> "abort-in-callback"
              [] s = 13 -> "abort" [] s = 14 -> "recovered-panic"      \* both while main is inside a try statement and a callee is running
 Ops == {"none-same-bytecode", "clear", "setbytecode", "clear+setbytecode"}
-Probes == 1..10
+Probes == 1..11
 
 \* what a run may leave dirty (everything it touched stays as it was when the run stopped)
 DirtyAfter(t) ==
@@ -36,6 +37,8 @@ DirtyAfter(t) ==
   always \cup (CASE t \in {"return", "closures", "deep-return"} -> {}
                  [] t = "module-state" -> {"modulesCache"}
                  [] t = "abort" -> {"abort", "err", "frame0.handlers", "framesAbove.handlers"}
+                 \* the pooled child VM goes back to the process-wide pool: _release zeroes it (pool.vms of the root is emptied)
+                 [] t = "abort-in-callback" -> {"abort", "err", "frame0.handlers", "framesAbove.handlers", "pool.vms"}
                  [] t = "tailstmt-throw" -> {"err", "framesAbove.discardRet", "frame0.discardRet"}
                  [] t = "callback-error" -> {"err", "pool.vms", "framesAbove.handlers"}
                  [] OTHER -> {"err", "frame0.handlers", "framesAbove.handlers"})
